@@ -94,7 +94,11 @@ class ShapedHandler(AsyncStreamRequestHandler):
                     if self.respond:
                         await client.send_packet(req)
                 if self.close_after and self.nreq >= self.close_after:
-                    await client.aclose()
+                    try:
+                        await client.aclose()
+                    except ConnectionError:
+                        self.log.append(("close-raised",))  # the transport's close reported a connection error: the client is closed all the same
+                    self.log.append(("handler-closed",))
                     return
         finally:
             self.log.append(("gen-close", gid))
@@ -135,7 +139,7 @@ class ConnGen2Handler(ShapedHandler):
             self.nreq += 1
 
 
-def serve(frames: int, K: int, path: str, per_gen: int, timeout, conn_gen: int = 0, close_after: int = 0, bufsize: int = 16, respond: bool = True, prefix: list = ()):
+def serve(frames: int, K: int, path: str, per_gen: int, timeout, conn_gen: int = 0, close_after: int = 0, bufsize: int = 16, respond: bool = True, prefix: list = (), close_raises: bool = False, highlevel: bool = False):
     def scenario(S):
         payloads = [S.bytes_in(1, (L.MARK, 65 + i), f"f{i}_") for i in range(frames)]  # each frame: well-formed or malformed
         stream = b""
@@ -148,7 +152,13 @@ def serve(frames: int, K: int, path: str, per_gen: int, timeout, conn_gen: int =
         N = len(stream)
         with loop_context() as loop:
             be = backend()
+            if highlevel:
+                from .asyncenv import MemServerBackend
+
+                be = MemServerBackend(listener_delay=0)
             tr = MemStreamTransport(be, stream, available=0, loop=loop)
+            if close_raises:
+                tr.close_error = ConnectionResetError(104, "reset")  # raised by the transport's aclose() after it marked itself closed
             ser = L.RawSep(b"\n", limit=8)
             proto = BufferedStreamProtocol(ser) if path == "buf" else StreamProtocol(ser)
             server = AsyncStreamServer(MemListener(be, [tr]), proto, bufsize)
@@ -180,7 +190,24 @@ def serve(frames: int, K: int, path: str, per_gen: int, timeout, conn_gen: int =
                 async with be.create_task_group() as tg:
                     await server.serve(handler, tg)
 
-            main_task = loop.create_task(main())
+            if highlevel:
+                # the same traffic through the real AsyncTCPNetworkServer (client API object, client initializer) instead of the bare
+                # low-level server
+                import logging
+
+                from easynetwork.servers.async_tcp import AsyncTCPNetworkServer
+
+                lg = logging.getLogger("verif.c15")
+                lg.disabled = True
+                hl = AsyncTCPNetworkServer("h", 0, proto, H, be, max_recv_size=bufsize, logger=lg)
+                main_task = loop.create_task(hl.serve_forever())
+                for _ in range(8):
+                    loop.step()
+                    if hl.is_serving():
+                        break
+                be.listeners[0].connect(tr)
+            else:
+                main_task = loop.create_task(main())
             disconnected_by_peer = False
             for i in range(K):
                 nev = 2 if (timeout is None and conn_gen != 2) else 3  # 'time passes' only matters when the handler yields a timeout
@@ -226,6 +253,11 @@ def serve(frames: int, K: int, path: str, per_gen: int, timeout, conn_gen: int =
                 ok = False
             if not tr.closed:
                 ok = False
+            if ("handler-closed",) in log:
+                # once the handler closed the client no further generator is started on the dead connection
+                after = log[log.index(("handler-closed",)) :]
+                if any(ev[0] == "gen-start" for ev in after):
+                    ok = False
             if log.count(("connected",)) != 1 or log.count(("disconnected",)) != 1:
                 ok = False
             if st["bad_timeout"]:
@@ -279,6 +311,10 @@ def shards(tier: str):
         ("g1-conngen2", dict(per_gen=1, timeout=None, conn_gen=2)),
         ("ginf-close2", dict(per_gen=0, timeout=None, close_after=2)),
         ("g1-close1", dict(per_gen=1, timeout=None, close_after=1)),
+        ("g1-close1-raises", dict(per_gen=1, timeout=None, close_after=1, close_raises=True)),
+        ("hl-g1-close1", dict(per_gen=1, timeout=None, close_after=1, highlevel=True)),
+        ("hl-g1-close1-raises", dict(per_gen=1, timeout=None, close_after=1, close_raises=True, highlevel=True)),
+        ("hl-g2-tNone", dict(per_gen=2, timeout=None, highlevel=True)),
     ]
     for name, shape in shapes:
         frames = 3 if (name.startswith("g2") or name.endswith("close2") or name.endswith("conngen2") or not quick) else 2
